@@ -139,7 +139,7 @@ def run_semantic(res, b, tier, seed, prop, make_cfgs, transform=None, n_quick=40
                              "sh_supported = programs the models with functions can run; both = programs on which the two "
                              "models were also compared with each other; in_theorem_fragment = programs in the fragment of "
                              "C01.bash_preserves_scalar_semantics, in_function_theorem_fragment = programs in the fragment of "
-                             "C02.bash_preserves_semantics_with_functions (instances of the theorems: a program of a fragment "
+                             "C02.bash_preserves_semantics_with_functions (functions, slices, strings; instances of the theorems: a program of a fragment "
                              "that runs in the source semantics must run to the same result in the bash model)"),
     ))
     res.assumptions += ["the Python reference interpreter states the Go meaning (README caveats) correctly",
